@@ -4,6 +4,7 @@ import HdVerif.Proofs.Effects
 import HdVerif.Proofs.SegReadTie
 import HdVerif.Proofs.SegReadSpec
 import HdVerif.Generated.T8h
+import HdVerif.Generated.T8s
 /-! # C02  Segment selection, ordering, combining and relabelling are exact
 
 Error kinds in the statements (`.error .runtime`, `.value`, `.key`) are the model's labels for the refusals; the
@@ -975,6 +976,65 @@ theorem tracking_ids_sound_complete (m : Mapping) (descs : List Desc) (f : Filte
     refine ⟨d, hd, ?_⟩
     simp only [hi, hu, trackingFilterFuncs_all m f d hf, hm, ↓reduceIte]
 
+/-- **Segmented property categories / types** (`segmented_property_categories`, `segmented_property_types`; the loop shape is
+T8s, the equality T17p, correspondence streams `property_categories` / `property_types`): the result is a sub-sequence of the
+codes of the non-background items in SegmentSequence order; every such code is in it or equals (pydicom's code equality) a
+member; and no member equals an earlier member — each concept once, represented by its first occurrence. -/
+theorem property_codes_first_occurrence (m : Mapping) (descs : List Desc) (ppv : Option Nat) :
+    let cats := (descs.filter fun d => !isBackground ppv d).map (·.category)
+    let typs := (descs.filter fun d => !isBackground ppv d).map (·.ptype)
+    ((propertyCategories m descs ppv).Sublist cats ∧
+      (∀ c ∈ cats, ∃ e ∈ propertyCategories m descs ppv, pydCodeEq m c e = true ∨ c = e) ∧
+      (propertyCategories m descs ppv).Pairwise (fun a b => pydCodeEq m b a = false)) ∧
+    ((propertyTypes m descs ppv).Sublist typs ∧
+      (∀ c ∈ typs, ∃ e ∈ propertyTypes m descs ppv, pydCodeEq m c e = true ∨ c = e) ∧
+      (propertyTypes m descs ppv).Pairwise (fun a b => pydCodeEq m b a = false)) := by
+  have hc : propertyCategories m descs ppv = dedupCodes m ((descs.filter fun d => !isBackground ppv d).map (·.category)) := by
+    unfold propertyCategories isBackground
+    cases ppv <;> simp [bne]
+  have ht : propertyTypes m descs ppv = dedupCodes m ((descs.filter fun d => !isBackground ppv d).map (·.ptype)) := by
+    unfold propertyTypes isBackground
+    cases ppv <;> simp [bne]
+  rw [hc, ht]
+  exact ⟨dedupCodes_spec m _, dedupCodes_spec m _⟩
+
+/-- **`get_segment_description`** is the first item of the SegmentSequence carrying that number, and is refused (IndexError) iff
+no item does (shape: T8s; correspondence stream `get_segment_description`). -/
+theorem segment_description_spec (descs : List Desc) (n : Nat) :
+    (∀ d, getSegmentDescription descs n = .ok d ↔ descs.find? (fun x => x.number == n) = some d) ∧
+    (getSegmentDescription descs n = .error .index ↔ ∀ d ∈ descs, d.number ≠ n) := by
+  unfold getSegmentDescription
+  cases h : descs.find? (fun x => x.number == n) with
+  | none =>
+    refine ⟨fun d => by simp, ?_⟩
+    simp only [true_iff]
+    intro d hd
+    have := List.find?_eq_none.mp h d hd
+    simpa using this
+  | some d0 =>
+    refine ⟨fun d => by simp, ?_⟩
+    simp only [false_iff, reduceCtorEq]
+    intro hall
+    have hm := List.mem_of_find?_eq_some h
+    have := List.find?_some h
+    exact hall d0 hm (by simpa using this)
+
+/-- the loops of the three description accessors have the shape the model gives them (T8s): which attribute is collected, that
+the background item is skipped, `not in` + `append`, `==` on the segment number, IndexError otherwise -/
+theorem description_accessors_are_source :
+    descriptionAccessors =
+      [("segmented_property_categories", "skip", "'PixelPaddingValue'inselfanddesc.segment_number==self.PixelPaddingValue"),
+       ("segmented_property_categories", "test", "not in acc"),
+       ("segmented_property_categories", "collect", "desc.segmented_property_category"),
+       ("segmented_property_categories", "do", "acc.append(desc.segmented_property_category)"),
+       ("segmented_property_types", "skip", "'PixelPaddingValue'inselfanddesc.segment_number==self.PixelPaddingValue"),
+       ("segmented_property_types", "test", "not in acc"),
+       ("segmented_property_types", "collect", "desc.segmented_property_type"),
+       ("segmented_property_types", "do", "acc.append(desc.segmented_property_type)"),
+       ("get_segment_description", "test", "desc.segment_number==segment_number"),
+       ("get_segment_description", "do", "return desc"),
+       ("get_segment_description", "else", "raise IndexError")] := by decide
+
 /-! ## Non-vacuity: concrete objects meeting the hypotheses
 
 A 16-bit label map with sparse numbers 3, 300, 700 and two stored planes; the request leaves out exactly one
@@ -1065,6 +1125,10 @@ example : getSegmentNumbers exMap exDescs none { category := some ⟨some "85756
 
 example : ∃ l, getTrackingIds exMap exDescs { algo := some "MANUAL" } = .ok l ∧ l = [("t", "1.2"), ("t", "1.3")] := by
   refine ⟨_, rfl, by decide⟩
+
+/-- the SRT alias and the versionless SCT code are one concept (first occurrence kept), the versioned codes two more -/
+example : (propertyCategories exMap exDescs none).map (·.value) = [some "T-D0050", some "85756007", some "85756007"] := by decide
+example : (getSegmentDescription exDescs 3).map (·.label) = .ok "c" ∧ getSegmentDescription exDescs 9 = .error .index := by decide
 
 /-! A FRACTIONAL object (MaximumFractionalValue 100), referenced sources 7, 8, 9 of which 9 has no frame. -/
 
